@@ -6,6 +6,7 @@
 #include <csignal>
 #include <cstdio>
 #include <cstring>
+#include <functional>
 #include <set>
 #include <sstream>
 
@@ -717,6 +718,83 @@ Verdict judge(const Plan &plan, const sim::Shm *shm, const ChildExit &ex, const 
 
     // ---- probes common ----------------------------------------------------------------------
     v.probes["futex_blocked"] = shm->counters[sim::C_FUTEX_WAIT];
+    // ---- signal sinks: the receiver object in the main thread gets every delivered message exactly once,
+    //      unchanged, and in the order in which each thread emitted them
+    {
+        std::set<int> sigs;
+        std::function<void(const Node &)> walk = [&](const Node &n) {
+            if (n.kind == "rec" && n.b == 1)
+                sigs.insert(n.a);
+            for (auto &k : n.kids)
+                walk(k);
+        };
+        walk(plan.root);
+        auto call_name = [&](int cid) {
+            auto it = calls.find(cid);
+            return it == calls.end() ? "#" + std::to_string(cid) : clip(it->second.text, 40);
+        };
+        bool pumped = false;
+        struct Rx
+        {
+            int sink, cid;
+            long idx;
+        };
+        std::vector<Rx> rx;
+        for (uint32_t i = 0; i < N; i++) {
+            const sim::Event &e = shm->events[i];
+            if (e.kind == E_SIGNAL_RX)
+                rx.push_back({ (int)e.a, (int)e.b, (long)i });
+            else if (e.kind == E_PUMPED)
+                pumped = true;
+        }
+        int checked = 0;
+        if (!sigs.empty() && pumped && v.ok) {
+            for (int sk : sigs) {
+                std::map<int, std::vector<long>> del, got; // cid -> event indices
+                for (auto &a : actual)
+                    if (a.sink == sk)
+                        del[a.cid].push_back(a.idx);
+                for (auto &r : rx)
+                    if (r.sink == sk)
+                        got[r.cid].push_back(r.idx);
+                for (auto &kv : del) {
+                    size_t n = got.count(kv.first) ? got[kv.first].size() : 0;
+                    checked++;
+                    if (n < kv.second.size())
+                        fail(v, "signal-lost",
+                             "signal sink " + std::to_string(sk) + " emitted message " + call_name(kv.first) + " "
+                                     + std::to_string(kv.second.size()) + " time(s) but the receiver in the main thread got it "
+                                     + std::to_string(n) + " time(s) after all queued signals were delivered");
+                    else if (n > kv.second.size())
+                        fail(v, "signal-duplicate",
+                             "the receiver of signal sink " + std::to_string(sk) + " got message " + call_name(kv.first) + " "
+                                     + std::to_string(n) + " times, emitted " + std::to_string(kv.second.size()) + " time(s)");
+                    else if (kv.first >= 0 && n == 1
+                             && sim::ev_str(shm, shm->events[kv.second[0]]) != sim::ev_str(shm, shm->events[got[kv.first][0]]))
+                        fail(v, "signal-content", "the receiver of signal sink " + std::to_string(sk) + " got message " + call_name(kv.first)
+                                     + " with another content than the sink emitted");
+                }
+                for (auto &kv : got)
+                    if (!del.count(kv.first))
+                        fail(v, "signal-phantom", "the receiver of signal sink " + std::to_string(sk) + " got message "
+                                     + call_name(kv.first) + ", which the sink never emitted");
+                // order per emitting thread
+                std::map<int, long> last_rx; // emitting thread -> index of the last reception
+                for (auto &a : actual) {
+                    if (a.sink != sk || a.cid < 0 || !got.count(a.cid) || got[a.cid].size() != 1)
+                        continue;
+                    long at = got[a.cid][0];
+                    auto it = last_rx.find(a.tid);
+                    if (it != last_rx.end() && it->second > at && v.ok)
+                        fail(v, "signal-reordered", "the receiver of signal sink " + std::to_string(sk) + " got message " + call_name(a.cid)
+                                     + " before an earlier message emitted by the same thread");
+                    last_rx[a.tid] = at;
+                }
+            }
+        }
+        v.probes["signal_sink_receptions_checked"] = checked;
+    }
+
     v.probes["deliveries"] = (int)actual.size();
     v.probes["entries"] = (int)entry_order.size();
     v.probes["messages_logged_by_qt_itself"] = foreign_msgs;
